@@ -180,8 +180,9 @@ Fixpoint glencoe_parse_tree (fuel : nat) (finfo_ : aval) (here : path) (parent :
                   else (* "GENOR": the only known type left *)
                     match finfo_get finfo_ fid "min" with Err e => Err e | Ok a =>
                     match finfo_get finfo_ fid "max" with Err e => Err e | Ok b =>
-                    match jint a with Err e => Err e | Ok a' =>
-                    match jint b with Err e => Err e | Ok b' => Ok (a', b') end end end end in
+                    (* fix: the bounds of a GENOR feature are integers *)
+                    match jint a with Err _ => Err FlamaException | Ok a' =>
+                    match jint b with Err _ => Err FlamaException | Ok b' => Ok (a', b') end end end end in
                 match grp with
                 | Err e => Err e
                 | Ok (a, b) =>
